@@ -676,3 +676,12 @@ mutant('C15', 'regress-f9a140d substitutional: distance along axis 1 of a single
 mutant('C15', 'regress-f9a140d dumbbell: distance along axis 1 of a single vector', PTF, (_D2, 3), _D1, 'SITE')
 benign('C15', 'interstitial: distance through dmag made one-dimensional', PTF, (_D2, 1), "np.atleast_1d(system.dmag(pos, system.atoms.pos))")
 benign('C15', 'dumbbell: single vector reshaped to one row', PTF, (_D2, 3), "np.linalg.norm(np.reshape(system.dvect(pos, system.atoms.pos), (-1, 3)), axis=1)")
+
+# regressions of the fix: commit 98fb38b (LAMMPS data / dump files from an open file-like object)
+_RW8 = "        if isinstance(data, io.IOBase):\n            data.seek(0)\n"
+mutant('C08', 'regress-98fb38b Atoms table read from a consumed stream', LD, "        # Rewind an open file-like object (the first pass read it to the end)\n" + _RW8, "", 'STREAMS')
+mutant('C08', 'regress-98fb38b image flags read from a consumed stream', LD, "            if isinstance(data, io.IOBase):\n                data.seek(0)\n            with uber_open_rmode(data) as f:", "            with uber_open_rmode(data) as f:", 'STREAMS')
+mutant('C08', 'regress-98fb38b Velocities read from a consumed stream', LD, "        prop_info = velocities_prop_info(atom_style, units)\n" + _RW8, "        prop_info = velocities_prop_info(atom_style, units)\n", 'STREAMS')
+mutant('C08', 'regress-98fb38b dump table read from a consumed stream', LDD, "    if isinstance(data, io.IOBase):\n        data.seek(0)\n", "", 'STREAMS')
+benign('C08', 'stream recognised by its seek method', LDD, "    if isinstance(data, io.IOBase):\n        data.seek(0)\n", "    if hasattr(data, 'seek'):\n        data.seek(0)\n")
+benign('C08', 'velocities: rewind attempted, a name has nothing to rewind', LD, "        prop_info = velocities_prop_info(atom_style, units)\n" + _RW8, "        prop_info = velocities_prop_info(atom_style, units)\n        try:\n            data.seek(0)\n        except AttributeError:\n            pass\n")
